@@ -29,6 +29,16 @@ for C in $PID $EXTRA; do
   V=$(grep -c "^VIOLATION" $OUT/check_$C.log)
   echo "check $C: exit $RC, VIOLATION lines $V"
   RES="$RES $C:exit$RC"
+  # keep the first reproducing counterexample and confirm that it does NOT reproduce on the unchanged tree (replay soundness)
+  CEX=$(grep -m1 "^VIOLATION" $OUT/check_$C.log | sed 's/.*replay=//')
+  if [ -n "$CEX" ] && [ -f "$CEX" ]; then
+    cp "$CEX" $OUT/cex_$C.json
+    if (cd /verif && VERIF_REPO=/repo PYTHONPATH=/repo/src timeout 600 /venv/bin/python replay/real.py $OUT/cex_$C.json 2>&1 | tail -1 | grep -q '"reproduced": true'); then
+      echo "check $C: COUNTEREXAMPLE ALSO REPRODUCES ON THE UNCHANGED TREE"; RES="$RES $C:cex-reproduces-on-clean-tree"
+    else
+      RES="$RES $C:cex-clean-on-unchanged-tree"
+    fi
+  fi
 done
 git -C /repo worktree remove --force $EVAL
 python3 - "$PID" "$NAME" "$T" "$D1" "$D0" "$RES" "$WT" <<'PY'
